@@ -16,7 +16,8 @@ def run(ctx):
     diff = [(r, a) for r, a in zip(reqs, impl) if not a.startswith("same")]
     ctx.oblige("property evaluated directly on the implementation: identically seeded runs give bit-identical per-shot registers and "
                "draw the same number of words from the supplied generator — twice in one process (thread-local generator consumed in "
-               "between), on 16 threads, and in a separate process (%d circuits)" % len(reqs), not diff and len(reqs) > 0,
+               "between), on the same Circuit object after another run history (same/different shot count, with/without a reexecute), "
+               "on 16 threads, and in a separate process (%d circuits, incl. 7-11 qubit measure_all/peek_all circuits on the state vector)" % len(reqs), not diff and len(reqs) > 0,
                "; ".join("%s -> %s" % (r[:150], a[:200]) for r, a in diff[:2]))
     if diff:
         r, a = min(diff, key=lambda x: len(x[0]))
@@ -24,7 +25,9 @@ def run(ctx):
                              "seed": ctx.seed, "tier": ctx.tier})
     ctx.coverage.update({
         "evaluations": len(reqs), "distinct_nontrivial": len(set(r for r, a in zip(reqs, impl) if a.endswith("ran"))),
-        "rule": "random circuits over all op kinds on the vector, stabilizer and automatically chosen representations, 1..300 shots; "
+        "rule": "random circuits over all op kinds on the vector, stabilizer and automatically chosen representations, 1..300 shots, "
+                "plus wide (7..11 qubit) state-vector circuits ending in measure_all/peek_all with several outcomes; each compared across: "
+                "a second run, the same object after a different history, 16 threads, a child process; "
                 "non-trivial = the run completed (so registers were compared); distinct = distinct (circuit, representation, shots, seed)",
         "samples": [{"req": reqs[i][:300], "impl": impl[i]} for i in range(min(3, len(reqs)))],
         "exhaustive": False,
